@@ -1,0 +1,38 @@
+//go:build verif
+
+package bridgesync
+
+import (
+	"context"
+
+	"github.com/agglayer/aggkit/log"
+	"github.com/agglayer/aggkit/sync"
+)
+
+// Verification hooks (build tag verif): a BridgeSync facade around the real processor, without
+// downloader/driver, plus pass-throughs to the processor's write path. No logic lives here.
+
+// NewVerifBridgeSync returns a BridgeSync whose only component is the real processor on dbPath.
+func NewVerifBridgeSync(dbPath string, name string, originNetwork uint32) (*BridgeSync, error) {
+	p, err := newProcessor(dbPath, name, log.WithFields("module", name))
+	if err != nil {
+		return nil, err
+	}
+	return &BridgeSync{processor: p, originNetwork: originNetwork}, nil
+}
+
+// VerifProcessBlock is processor.ProcessBlock.
+func (s *BridgeSync) VerifProcessBlock(ctx context.Context, b sync.Block) error {
+	return s.processor.ProcessBlock(ctx, b)
+}
+
+// VerifReorg is processor.Reorg.
+func (s *BridgeSync) VerifReorg(ctx context.Context, firstReorgedBlock uint64) error {
+	return s.processor.Reorg(ctx, firstReorgedBlock)
+}
+
+// VerifClose closes the processor's database handle (node stop).
+func (s *BridgeSync) VerifClose() error { return s.processor.db.Close() }
+
+// VerifIsHalted reports the processor's halted flag.
+func (s *BridgeSync) VerifIsHalted() bool { return s.processor.isHalted() }
